@@ -154,7 +154,7 @@ func checkReleased(w *World, what string) {
 func init() {
 	register(&CheckDef{ID: "C11", Level: "fault_enumeration", Engine: "A", Draw: drawC11,
 		Rule:     "random part: 1-8 connections of random kinds (C16 kinds) in parallel, aborted by FIN or RST at random byte offsets or stalled, handshake timeout in {off,1s,10s} and idle timeout in {2s,30s,180s} through the real flags; oracle: once every client has gone and simulated time has advanced (<= 217 s) every accepted connection has been closed by the proxy and the goroutine census (stable at quiescence) shows no serveConn / http2 serverConn / net/http conn / persistConn goroutine. Non-trivial: at least one fault fired. Distinct: distinct controller action-label sequences.",
-		EnumRule: "enumerated part: a client abort (FIN and RST) at EVERY byte offset of the client->proxy stream of a fixed HTTP/1.1 and a fixed HTTP/2 session (two requests each); a silent stall at every byte offset of the handshake for handshake timeouts 1s and 10s (the proxy must hang up at the timeout, not earlier); an idle connection after a served request for idle timeouts 2s and 30s on both protocols (the proxy must close it at the timeout). Quick tier: stride sample; thorough tier: every index.",
+		EnumRule: "enumerated part: a client abort (FIN and RST) at EVERY byte offset of the client->proxy stream of a fixed HTTP/1.1 and a fixed HTTP/2 session (two requests each); a silent stall at every byte offset of the handshake for handshake timeouts 1s and 10s (the proxy must hang up at the timeout, not earlier); a silent stall at EVERY byte offset of both sessions that lasts 12 s or 75 s before the client goes away by FIN or RST (everything must be released afterwards); an idle connection after a served request for idle timeouts 2s and 30s on both protocols (the proxy must close it at the timeout). Quick tier: stride sample; thorough tier: every index.",
 		Enum:     &EnumDef{Params: faultParams, Count: c11Count, Case: c11Case}})
 }
 
@@ -182,11 +182,12 @@ func faultParams(run func(c *Case) *World) map[string]int {
 }
 
 type faultCase struct {
-	Kind    string // abort, stall_hs, idle
+	Kind    string // abort, stall_hs, stall_abort, idle
 	Session string
 	How     string
 	Off     int
 	Timeout int
+	Wait    int // stall_abort: seconds of silence before the client goes away
 }
 
 func c11Decode(p map[string]int, i int) faultCase {
@@ -204,13 +205,20 @@ func c11Decode(p map[string]int, i int) faultCase {
 		}
 		i -= n
 	}
+	for _, s := range []string{"h1", "h2"} {
+		n := 2 * (p[s+"_total"] + 1)
+		if i < n {
+			return faultCase{Kind: "stall_abort", Session: s, How: []string{"fin", "rst"}[(i/2)%2], Off: i / 2, Wait: []int{12, 75}[i%2]}
+		}
+		i -= n
+	}
 	s := []string{"h1", "h2", "h2", "h2"}[i/2%4]
 	how := []string{"", "", "client_rst", "server_rst"}[i/2%4]
 	return faultCase{Kind: "idle", Session: s, How: how, Timeout: []int{2, 30}[i%2]}
 }
 
 func c11Count(p map[string]int) int {
-	return 2*(p["h1_total"]+1) + 2*(p["h2_total"]+1) + 2*p["h1_hs"] + 2*p["h2_hs"] + 8
+	return 4*(p["h1_total"]+1) + 4*(p["h2_total"]+1) + 2*p["h1_hs"] + 2*p["h2_hs"] + 8
 }
 
 func c11Case(p map[string]int, i int) *Case {
@@ -240,6 +248,20 @@ func c11Case(p map[string]int, i int) *Case {
 			checkReleased(w, c.Summary)
 		}
 		c.Nontrivial = func(w *World, c *Case) bool { return w.Clients[0].stalled }
+	case "stall_abort":
+		// the client falls silent after Off bytes (whatever step of the handshake or of
+		// the HTTP traffic that is), stays connected for Wait seconds, then goes away
+		cp.StallOn, cp.StallAt = true, fc.Off
+		c.Oracle = func(w *World, c *Case) {
+			cl := w.Clients[0]
+			w.SettleTime(fc.Wait)
+			if !cl.aborted && cl.conn != nil {
+				cl.Plan.AbortKind = fc.How
+				w.abortClient(cl)
+			}
+			checkReleased(w, c.Summary)
+		}
+		c.Nontrivial = func(w *World, c *Case) bool { return w.Clients[0].stalled || w.Clients[0].Done() }
 	case "idle":
 		plan.Args = []string{"-timeout-http-idle", fmt.Sprintf("%ds", fc.Timeout)}
 		// serve the two requests, then stay idle until the proxy hangs up
@@ -489,6 +511,7 @@ func drawC10(t *rapid.T) *Case {
 	p.Faults.PanicAt = map[string]int{}
 	var cp *ClientPlan
 	var m *ClientMeta
+	var slowTags []string
 	what := ""
 	switch rapid.IntRange(0, 5).Draw(t, "faulty") {
 	case 0:
@@ -502,6 +525,9 @@ func drawC10(t *rapid.T) *Case {
 		cp = &ClientPlan{ID: 0, Addr: "198.51.100.10:32000", Hello: DrawHello(t, HelloOpts{Proto: "h2"})}
 		m = &ClientMeta{Proto: "h2", Kind: "h2garbage"}
 		sc := DrawH2Script(t, H2GenOpts{ClientID: 0, MaxReqs: 3, Bodies: true, ExtraMax: 2})
+		for _, r := range sc.Reqs {
+			slowTags = append(slowTags, r.Spec.Tag)
+		}
 		var stream []byte
 		stream = append(stream, ClientPreface...)
 		for _, g := range sc.Groups {
@@ -567,7 +593,8 @@ func drawC10(t *rapid.T) *Case {
 	case 5:
 		kind := []string{"h1", "h2"}[rapid.IntRange(0, 1).Draw(t, "sess")]
 		cp, m = fixedSession(kind, 0)
-		switch rapid.IntRange(0, 2).Draw(t, "fk") {
+		slowTags = []string{"c0-r0", "c0-r1"}
+		switch rapid.IntRange(0, 3).Draw(t, "fk") {
 		case 0:
 			cp.AbortKind = []string{"fin", "rst"}[rapid.IntRange(0, 1).Draw(t, "ak")]
 			cp.AbortAt = rapid.IntRange(0, 1200).Draw(t, "aoff")
@@ -583,6 +610,20 @@ func drawC10(t *rapid.T) *Case {
 	c2, m2 := controlClient([]string{"h1", "h2"}[rapid.IntRange(0, 1).Draw(t, "ctl2")], 2, []int{0})
 	p.Clients = []*ClientPlan{cp, c1, c2}
 	p.Args = []string{"-timeout-tls-handshake", "1s"}
+	if drawBool(t, "slow", 35) {
+		// the faulty client's requests outlive the configured read / write timeouts
+		if drawBool(t, "readto", 70) {
+			p.Args = append(p.Args, "-timeout-http-read", []string{"1s", "2s"}[rapid.IntRange(0, 1).Draw(t, "readtov")])
+		}
+		if drawBool(t, "writeto", 40) {
+			p.Args = append(p.Args, "-timeout-http-write", []string{"1s", "2s"}[rapid.IntRange(0, 1).Draw(t, "writetov")])
+		}
+		p.Backend.Resp = map[string]*RespPlan{}
+		for _, tag := range slowTags {
+			p.Backend.Resp[tag] = &RespPlan{Status: 200, Body: []byte("slow:" + tag), DelayMS: []int{1500, 3500}[rapid.IntRange(0, 1).Draw(t, "delay")]}
+		}
+		what += " (slow back-end, args " + strings.Join(p.Args[2:], " ") + ")"
+	}
 	p.Fences = drawBool(t, "fences", 30)
 	p.Tape, p.Tail = drawTape(t, 64)
 	c := &Case{Plan: p, Metas: []*ClientMeta{m, m1, m2}}
